@@ -11,6 +11,7 @@ import (
 	"sort"
 	"strings"
 	"sync"
+	"sync/atomic"
 	"testing"
 	"testing/synctest"
 	"time"
@@ -405,8 +406,37 @@ func runExhaust(h *XHistory, u upstream.Upstream, w *vnet.World) {
 	// after, are issued in concurrent waves, so that several callers meet the
 	// connection at its end of life together
 	seqN := 65536 - 300
+	// every exchange carries a 3 s deadline (the late ones of the close
+	// scenario 20 s, answered within 5 s): when none at all has returned for
+	// 10 s while some are out, one of them has outlived its deadline - and the
+	// waves below would wait for it for ever
+	var returned, inflight atomic.Int64
+	finished := make(chan struct{})
+	go func() {
+		last := int64(-1)
+		for {
+			select {
+			case <-finished:
+				return
+			case <-time.After(10 * time.Second):
+			}
+			now := returned.Load()
+			if out := inflight.Load(); now == last && out > 0 {
+				s.Fail("C14", "exchange-outlives-deadline", "id-space run: %d exchanges are in flight and none has returned for 10 s, each has a deadline of 3 s (%d returned so far, the connection's id space ends at 65536)", out, now)
+				return
+			}
+			last = now
+		}
+	}()
+	track := func(f func()) {
+		inflight.Add(1)
+		f()
+		inflight.Add(-1)
+		returned.Add(1)
+	}
 	yieldPaused.Store(true)
 	defer func() {
+		defer close(finished)
 		yieldPaused.Store(false)
 		var wg sync.WaitGroup
 		const wave = 24
@@ -421,7 +451,8 @@ func runExhaust(h *XHistory, u upstream.Upstream, w *vnet.World) {
 						defer slowWG.Done()
 						c := &plan.XCall{Idx: 1_000_000 + idx, Token: fmt.Sprintf("txslow%d", idx-(65536-6)), ID: uint16(idx * 7), Type: 1}
 						ctx, cancel := context.WithTimeout(context.Background(), 20*time.Second)
-						m, _ := u.ExchangeContext(ctx, xQuery(c))
+						var m *dnsmsg.Msg
+						track(func() { m, _ = u.ExchangeContext(ctx, xQuery(c)) })
 						cancel()
 						if m != nil {
 							dnsmsg.ReleaseMsg(m)
@@ -442,7 +473,9 @@ func runExhaust(h *XHistory, u upstream.Upstream, w *vnet.World) {
 					}
 					c := &plan.XCall{Idx: 1_000_000 + idx, Token: fmt.Sprintf("tx%d", idx), ID: uint16(idx * 7), Type: 1}
 					ctx, cancel := context.WithTimeout(context.Background(), 3*time.Second)
-					m, err := u.ExchangeContext(ctx, xQuery(c))
+					var m *dnsmsg.Msg
+					var err error
+					track(func() { m, err = u.ExchangeContext(ctx, xQuery(c)) })
 					cancel()
 					if err != nil {
 						// the server is healthy, answers within a round trip and a
@@ -494,7 +527,9 @@ func runExhaust(h *XHistory, u upstream.Upstream, w *vnet.World) {
 	for i := 0; i < n; i++ {
 		c := &plan.XCall{Idx: 1_000_000 + i, Token: "tx", ID: uint16(i * 7), Type: 1}
 		ctx, cancel := context.WithTimeout(context.Background(), 3*time.Second)
-		m, err := u.ExchangeContext(ctx, xQuery(c))
+		var m *dnsmsg.Msg
+		var err error
+		track(func() { m, err = u.ExchangeContext(ctx, xQuery(c)) })
 		cancel()
 		if err != nil {
 			fails++
